@@ -518,7 +518,7 @@ func (c *c19Call) usesCause() bool {
 	switch c.Kind {
 	case "req", "retryping":
 		return c.F != c19FClosed1 && c.F != c19FClosed2
-	case "connectopt", "retryconnectopt":
+	case "connectopt", "retryconnectopt", "reconnconnect":
 		return true
 	case "keepalive":
 		return c.N != 0
@@ -558,6 +558,8 @@ func (c *c19Call) coq() string {
 		return fmt.Sprintf("(CkRetryRetx %s %s %d)", c19KNames[c.K], cBool(c.P2), c.N)
 	case "retryclosed":
 		return fmt.Sprintf("(CkRetryClosed %s %s)", c19KNames[c.K], cBool(c.P2))
+	case "reconnconnect":
+		return fmt.Sprintf("(CkReconnConnect %d)", c.N)
 	}
 	panic("c19: unknown call kind " + c.Kind)
 }
@@ -618,6 +620,9 @@ func (d *c19Desc) text() string {
 		return "&foreignPtr{Err: " + d.Child.text() + "}"
 	case "call":
 		if d.Call.usesCause() {
+			if d.Call.Kind == "reconnconnect" {
+				return fmt.Sprintf("ReconnectClient.Connect[failed attempts before the caller's context ends: %v; ctx.Err(): %s]", c19ReconnHistories[d.Call.N], d.Child.text())
+			}
 			w := ""
 			if d.Call.Partial != 0 {
 				w = fmt.Sprintf(" returned by Write as (n=%d, err)", d.Call.Partial)
@@ -940,10 +945,88 @@ func c19RetxRun(c *c19Call) (error, bool) {
 	return last, true
 }
 
+// histories of failed attempts of ReconnectClient.Connect before the caller's context ends
+// (CkReconnConnect n): "dial" = the dialer fails; "refusedN" = CONNACK with return code N;
+// "handshake-deadline" = CONNACK never sent, WithTimeout expires; "closed" = transport closed before CONNACK
+var c19ReconnHistories = [][]string{
+	{},
+	{"dial"},
+	{"dial", "dial", "dial"},
+	{"refused1"}, {"refused2"}, {"refused3"}, {"refused4"}, {"refused5"},
+	{"handshake-deadline"},
+	{"closed"},
+	{"dial", "refused2", "closed"},
+	{"refused4", "handshake-deadline"},
+	{"closed", "dial", "refused5"},
+	{"handshake-deadline", "refused1"},
+}
+
+var errC19Dial = errors.New("c19: dial failed")
+
+// c19ReconnConnect runs ReconnectClient.Connect with a caller context whose Err() is cause; the
+// scripted dialer makes the attempts of the history fail one after the other and, when it is asked
+// for the next connection, completes the caller's context (all recorded errors were stored before).
+func c19ReconnConnect(hist []string, cause error) (error, bool) {
+	ctx := newC19Ctx(cause)
+	var mu sync.Mutex
+	attempt := 0
+	var conns []*c19Conn
+	dialer := mqtt.DialerFunc(func(dctx context.Context) (*mqtt.BaseClient, error) {
+		mu.Lock()
+		defer mu.Unlock()
+		i := attempt
+		attempt++
+		if i >= len(hist) {
+			ctx.cancel()
+			return nil, cause // == ctx.Err(): the loop does not record it
+		}
+		h := hist[i]
+		if h == "dial" {
+			return nil, errC19Dial
+		}
+		cc := c19NewConn(func(cc *c19Conn, n int, p c19Pkt) (bool, error) {
+			if p.Kind != "connect" {
+				return false, nil
+			}
+			if h == "closed" {
+				cc.conn.Close()
+			}
+			return true, nil // no CONNACK
+		})
+		cc.connackCode = -1
+		if strings.HasPrefix(h, "refused") {
+			cc.connackCode = int(h[len("refused")] - '0')
+		}
+		conns = append(conns, cc)
+		return cc.cli, nil
+	})
+	rc, err := mqtt.NewReconnectClient(dialer,
+		mqtt.WithReconnectWait(time.Millisecond, 2*time.Millisecond),
+		mqtt.WithTimeout(100*time.Millisecond)) // the library's own handshake deadline
+	if err != nil {
+		return err, false
+	}
+	res, ok := c19Guard(func() error { _, err := rc.Connect(ctx, "c19"); return err })
+	ctx.cancel()
+	_, _ = c19Guard(func() error {
+		dctx, cancel := ctxTimeout(5 * time.Second)
+		defer cancel()
+		return rc.Disconnect(dctx)
+	})
+	mu.Lock()
+	for _, cc := range conns {
+		cc.cli.Close()
+	}
+	mu.Unlock()
+	return res, ok
+}
+
 // c19DoCall performs the real library call and returns its error. ok=false: it did not return.
 func c19DoCall(c *c19Call, cause error) (error, bool) {
 	bg := context.Background()
 	switch c.Kind {
+	case "reconnconnect":
+		return c19ReconnConnect(c19ReconnHistories[c.N], cause)
 	case "retryretx":
 		return c19Retx(c)
 	case "retryclosed":
@@ -1379,6 +1462,11 @@ func c19CauseCalls() []*c19Call {
 	for _, rt := range []bool{false, true} {
 		out = append(out, &c19Call{Kind: "retryping", F: c19FWrite1, RT: rt}, &c19Call{Kind: "retryping", F: c19FCtx1, RT: rt})
 	}
+	// ReconnectClient.Connect ended by the caller's context after a history of failed attempts (the
+	// histories that wait for the library's 100 ms handshake deadline only run in the exhaustive part)
+	for _, h := range []int{0, 1, 3, 5, 9, 10, 12} {
+		out = append(out, &c19Call{Kind: "reconnconnect", N: h})
+	}
 	return out
 }
 
@@ -1456,6 +1544,12 @@ func (g *c19Gen) chain(depth int, hostile bool) *c19Desc {
 		return &c19Desc{Kind: "lib", ID: id, Child: child}
 	}
 	c := g.withCause[g.r.Intn(len(g.withCause))]
+	if c.Kind == "reconnconnect" && child.Kind == "uncmp" {
+		// the reconnect loop compares errors with ctx.Err() by == (reconnclient.go:161,169): a context
+		// whose Err() is a value of an uncomparable type makes that comparison panic on a library
+		// goroutine. Foreign and outside the property; not generated (recorded in notes/C19.md).
+		return &c19Desc{Kind: "lib", ID: id, Child: child}
+	}
 	if (c.Kind == "req" || c.Kind == "retryping") && (c.F == c19FWrite1 || c.F == c19FWrite2) {
 		cp := *c
 		cp.Partial = []int{0, 1, 2, -1}[g.r.Intn(4)]
@@ -1849,7 +1943,7 @@ func runC19(cfg *runCfg) error {
 	m := &meta{Property: "C19", Distribution: map[string]interface{}{}, Families: map[string][]interface{}{}}
 	b := &c19Builder{reg: map[int]error{}, calls: map[string]int{}}
 
-	nRandom, maxDepth, nRetryRandom, retryDepth := 750, 6, 250, 4
+	nRandom, maxDepth, nRetryRandom, retryDepth := 700, 6, 250, 4
 	switch cfg.tier {
 	case "thorough":
 		nRandom, maxDepth, nRetryRandom, retryDepth = 7000, 9, 3000, 6
@@ -1885,6 +1979,14 @@ func runC19(cfg *runCfg) error {
 		g.nextID = 0
 		for _, cause := range fixedCauses() {
 			descs = append(descs, &c19Desc{Kind: "call", ID: g.id(), Call: c, Child: cause})
+		}
+	}
+	// ReconnectClient.Connect: every history of failed attempts x the caller cancelled / the caller's
+	// deadline expired (the withCause loop above ran 7 of the histories with all 11 causes)
+	for h := range c19ReconnHistories {
+		for _, sent := range []int{c19SCanceled, c19SDeadline} {
+			g.nextID = 0
+			descs = append(descs, &c19Desc{Kind: "call", ID: g.id(), Call: &c19Call{Kind: "reconnconnect", N: h}, Child: &c19Desc{Kind: "sent", Sent: sent}})
 		}
 	}
 	// a failing Transport.Write that reports n > 0 accepted bytes: every request kind x n in {1,2,len-1}
